@@ -144,12 +144,14 @@ def run_case(args):
             theory.heavy.matching_ratios[rng.randrange(3)] = rng.choice([0.7, 2.0])
         operator = example.operator()
         operator.init = (1.65, 4)
-        operator.xgrid = XGrid(card_x)
+        islog = rng.random() < 0.7
+        operator.xgrid = XGrid(card_x, log=islog)
+        operator.configs.interpolation_is_log = islog
         operator.configs.interpolation_polynomial_degree = rng.choice([1, 2])
         operator.mugrid = [(scales[q - 1], nf) for q, nf in eg]
         members = rng.choice([1, 2, 3])
         pdfs = [ToyPDF(rng) for _ in range(members)]
-        extra["concrete"] = {"scales": scales, "mugrid": [list(x) for x in operator.mugrid], "card_x": card_x,
+        extra["concrete"] = {"scales": scales, "mugrid": [list(x) for x in operator.mugrid], "card_x": card_x, "log": islog,
                              "target_x": tgt_x if tgt else None, "scheme": theory.heavy.masses_scheme.name,
                              "order": list(theory.order), "members": members}
 
@@ -225,7 +227,7 @@ def run_case(args):
         # ---- values: contraction of the stored operators with the toy PDFs, by hand -----------------
         written_x = tgt_x if tgt else card_x
         if tgt:
-            disp = InterpolatorDispatcher(XGrid(card_x), operator.configs.interpolation_polynomial_degree, mode_N=False)
+            disp = InterpolatorDispatcher(XGrid(card_x, log=islog), operator.configs.interpolation_polynomial_degree, mode_N=False)
             rot = disp.get_interpolation(np.array(tgt_x))
         else:
             rot = np.eye(len(card_x))
